@@ -193,6 +193,14 @@ let run_op (op : string) (r : rd) : unit =
   | "read_plain" -> let fs = get_fs r in let root = get_str r in let inc = get_bool r in let com = get_bool r in
                     let n = get_int r in
                     put_res (fun (s, c) -> put_sdict s; sp (); put_int c) (Reader.read_plain fs root inc com n)
+  | "read_full" -> let fs = get_fs r in let root = get_str r in let com = get_bool r in let n = get_int r in
+                   (match Eval.read_full fs root com n with
+                    | None -> put "outside"
+                    | Some x -> put_res (fun (s, c) -> put_sdict s; sp (); put_int c) x)
+  | "pyeval" -> (match Eval.pyeval (get_str r) with
+                 | Eval.EvInt z -> put "int "; put_int z
+                 | Eval.EvSyntax -> put "syntax"
+                 | Eval.EvOutside -> put "outside")
   | "json_parse" -> let d = get_str r in let n = get_int r in let t = get_kvs r in
                     let p = Reader.json_parse d n t in put_sdict p.TokParser.pr_sd; sp (); put_int p.TokParser.pr_count
   | "variables_of" -> put_tree (Value.Dict (Expr.variables_of (get_sdict r)))
